@@ -668,7 +668,7 @@ static void gen_C08(const std::string &tier, uint64_t seed, long idx, Scn &s) {
   long nfile = tier == "quick" ? 2000 : 400000;
   if (idx < nfile) { // (a) tag of a simulated encryption; lengths chosen to sweep (20T + body) mod 64
     s.i["mode"] = 0;
-    int T = 1 + (int)g.below(4);
+    int T = g.chance(0.8) ? 1 + (int)g.below(4) : (int)g.range(5, 16);
     s.i["T"] = T;
     s.i["len"] = (idx % 160) + (g.chance(0.3) ? (long)g.below(4 * CHB()) : 0);
     pick_sched(g, s, 0, T, true);
